@@ -4,9 +4,15 @@
 cd /verif
 git -C /repo diff --quiet || { echo "/repo is dirty"; exit 2; }
 OUT=/verif/seeded/TABLE.md
-echo "| seed | property check | verdict | decided by |" > $OUT
-echo "|---|---|---|---|" >> $OUT
-for d in seeded/C*/; do
+# with arguments: only the named seeds, appended to the existing table (rows of those seeds are replaced)
+if [ $# -gt 0 ]; then
+  LIST=""; for n in "$@"; do LIST="$LIST seeded/$n/"; grep -v "^| $n |" $OUT > $OUT.tmp; mv $OUT.tmp $OUT; done
+else
+  LIST=$(ls -d seeded/C*/)
+  echo "| seed | property check | verdict | decided by |" > $OUT
+  echo "|---|---|---|---|" >> $OUT
+fi
+for d in $LIST; do
   NAME=$(basename $d)
   P=${NAME:0:3}
   git -C /repo apply /verif/seeded/$NAME/patch.diff || { echo "| $NAME | $P | PATCH DOES NOT APPLY | |" >> $OUT; continue; }
